@@ -38,6 +38,16 @@ theorem src_matrix_of_product (p q : Q K) :
   simp only [src_compose, src_to_matrix, toMat_mul]
 example : M.Src.rot_compose (1 : Int) 2 3 4 5 6 7 8 = Q.mul ⟨1, 2, 3, 4⟩ ⟨5, 6, 7, 8⟩ ∧ (Q.mul (⟨1, 2, 3, 4⟩ : Q Int) ⟨5, 6, 7, 8⟩).w = -6 := by decide
 
+/-- `Rotation.inv` as coded (sign vector read from the source, flag kept) is the conjugate quaternion of the model, so `p @ p.inv()` is
+the identity for the source formulas: the product of the source applied to `q` and the inverse of the source has vector part `0` and
+scalar part `|q|²` -/
+theorem src_inv (q : Q K) : M.Src.rot_inv q.a q.b q.c q.w = Q.conj q := M.SrcL.rot_inv_eq q
+theorem src_mul_inv (q : Q K) :
+    (let i := M.Src.rot_inv q.a q.b q.c q.w; M.Src.rot_compose q.a q.b q.c q.w i.a i.b i.c i.w) = ⟨0, 0, 0, q.normSq⟩ := by
+  simp only [src_inv, src_compose]
+  simp only [Q.mul, Q.conj, Q.normSq, Q.mk.injEq]
+  refine ⟨?_, ?_, ?_, ?_⟩ <;> ring
+
 /-- composition is associative; the norm is multiplicative (so `@` keeps unit quaternions unit) -/
 theorem mul_assoc (p q r : Q K) : Q.mul (Q.mul p q) r = Q.mul p (Q.mul q r) := M.qmul_assoc p q r
 theorem normSq_mul (p q : Q K) : (Q.mul p q).normSq = p.normSq * q.normSq := M.normSq_mul p q
